@@ -1,12 +1,7 @@
 SPECIFICATION SSpec
 CONSTANTS
-  NB = 2
-  IL = 2
-  RowSz = 2
-  Width = 2
-  Track = FALSE
-  Deviations <- DevLane
-  PortCap = 3
+  Config <- LaneN2
+  PortCap = 2
   PostCap = 1
   Payloads <- MCSmall
   MaxReq = 3
